@@ -2,10 +2,18 @@
 
 Engine: E5 (production SFTPServer._check_file behind a production SFTPClient / SFTPFile.check,
 socketpair link).  A case = a served file (aperiodic content: SHAKE-256 stream of a generated seed,
-so a block hashed at the wrong position gives a different digest) + 1-4 queries
-(algorithm list, offset, length, block_size >= 256) on one open handle.
+so a block hashed at the wrong position gives a different digest) + a program on the file's handles:
+either 1-4 queries (algorithm list, offset, length, block_size >= 256) on one read-only handle, or a *handle
+history*: the file opened r, r+ or w+ (unbuffered SFTPFile, no prefetch) plus a second handle on the same
+file, and 4-10 operations check / read(n) / seek / write(data) on either handle.  Offsets of checks and seeks
+may be given relative to the handle's own past: ("end", k, d) = where the k-th most recent request on that
+handle (read, write or check range) ended, plus d; ("pos", d) = the handle's current read/write position.
+The served files are unbuffered on the server side (a second handle must see what the first one wrote).
 
-Oracle (hashlib over the very bytes written to the served file):
+Oracle (hashlib over the very bytes the served file holds at the moment of the query: the harness keeps a
+model of the file - initial bytes, emptied by a w+ open, patched by every write it issues; SFTPFile.write on an
+unbuffered, non-pipelined file has reached the server when it returns, flush() is called all the same - and
+the model is compared with the file on disk at the end of the case; what read() returns is not asserted here):
     end    = size if length == 0 or offset + length > size else offset + length
     reply == concat(H(content[p : min(p + block, end)]) for p = offset, offset+block, ... < end)
   * the statement quantifies over block sizes of at least 256 only: 0 and 1..255 are not generated;
@@ -35,11 +43,16 @@ PROPERTY = "C32"
 LEVEL = "exploration"
 RULE = (
     "hypothesis-generated cases: served file of size {0,1,255..257,65535..65537,131071..131073,196608,262144,409600, random 0..409600} "
-    "with aperiodic content, 1-4 check-file queries on one handle via SFTPFile.check: algorithm in {md5, sha1, lists with both orders and an "
+    "with aperiodic content; program = 1-4 check-file queries on one read-only handle, or (half of the cases) a handle history of 4-10 "
+    "operations check/read(n)/seek/write(1..65536 bytes) on a handle opened r, r+ or w+ (unbuffered) and on a second handle on the same file, "
+    "offsets also relative to the handle's past (end position of its k-th last request +-d, current position) and to the current size; "
+    "queries via SFTPFile.check: algorithm in {md5, sha1, lists with both orders and an "
     "unsupported name}, offset/length from {0,1,255,256,257,65535,65536,65537,131072,size-1,size,size+1, random, 2^40}, block size >= 256 from "
-    "{256,257,512,4096,65535,65536,65537,131072,size,size+1,random}; oracle = hashlib per block over the served bytes, range clipped at EOF when "
+    "{256,257,512,4096,65535,65536,65537,131072,size,size+1,random}; oracle = hashlib per block over the bytes the file holds at that moment "
+    "(model = initial bytes + the writes issued; checked against the disk at the end), range clipped at EOF when "
     "length is 0 or runs past it; promptness = server read-count/livelock guard. non-trivial = some block of the range is longer than 65536 bytes "
-    "(spans the server's read chunk) or the requested length runs past EOF or there are >= 2 blocks with a partial last one; distinct by SHA-1 of the case"
+    "(spans the server's read chunk) or the requested length runs past EOF or there are >= 2 blocks with a partial last one, or a non-empty range is "
+    "hashed on a handle that has already served a read/write or after the file was modified; distinct by SHA-1 of the case"
 )
 THOROUGH_WORKERS = 16
 
@@ -92,7 +105,42 @@ _block = st.one_of(
     st.tuples(st.just("frac"), st.integers(300, 1000)),
 )
 _query = st.tuples(_algs, _offset, _length, _block)
-case_st = st.fixed_dictionaries({"size": _file_sizes, "seed": st.integers(0, 255), "queries": st.lists(_query, min_size=1, max_size=4)})
+
+
+
+def _w(strategy, n):
+    """``n`` distinct copies of a strategy: one_of() drops repeated occurrences of the same object (and flattens nested
+    one_of()s), so weighting by repetition needs distinct objects."""
+    return [strategy.map(lambda v: v) for _ in range(n)]
+
+
+# ---- handle histories: operations on handle 0 (opened with the case's mode) or handle 1 (second handle on the same file)
+_h = st.sampled_from([0, 0, 0, 0, 0, 0, 1])
+# offsets relative to the handle's own past: ("end", k, d) = end of its k-th most recent request + d; ("pos", d) = current position + d
+_rel = st.one_of(
+    st.tuples(st.just("end"), st.integers(0, 3), st.sampled_from([0, 0, 0, 0, 0, 0, 1, -1, 256, -256])),
+    st.tuples(st.just("pos"), st.sampled_from([0, 0, 0, 1, -1, 4096])),
+)
+_prev_end = st.tuples(st.just("end"), st.sampled_from([0, 0, 1, 1, 1, 2, 3]), st.just(0))
+_hoffset = st.one_of(*(_w(_offset, 2) + _w(_rel, 1) + _w(_prev_end, 2)))
+_nread = st.one_of(st.sampled_from([1, 255, 256, 4096, 32768, 32769, 65536, 100000]), st.integers(1, 70000), st.integers(1, 300))
+_nwrite = st.one_of(st.sampled_from([1, 256, 4096, 32768, 32769, 65536]), st.integers(1, 40000), st.integers(1, 300), st.integers(1, 300))
+_hcheck = st.tuples(st.just("check"), _h, _algs, _hoffset, _length, _block)
+_hop = st.one_of(
+    *(
+        _w(_hcheck, 3)
+        + _w(st.tuples(st.just("read"), _h, _nread), 2)
+        + _w(st.tuples(st.just("seek"), _h, _hoffset), 1)
+        + _w(st.tuples(st.just("write"), _h, _nwrite, st.integers(0, 255)), 2)
+    )
+)
+_plain_case = st.fixed_dictionaries(
+    {"size": _file_sizes, "seed": st.integers(0, 255), "mode": st.just("r"), "ops": st.lists(_query.map(lambda q: ("check", 0) + tuple(q)), min_size=1, max_size=4)}
+)
+_history_case = st.fixed_dictionaries(
+    {"size": _file_sizes, "seed": st.integers(0, 255), "mode": st.sampled_from(["r", "r+", "r+", "r+", "r+", "w+"]), "ops": st.lists(_hop, min_size=4, max_size=10)}
+)
+case_st = st.one_of(*(_w(_plain_case, 1) + _w(_history_case, 2)))
 
 
 def _resolve(n, size, floor=0):
@@ -108,6 +156,11 @@ def _resolve(n, size, floor=0):
 
 def _content(seed, size):
     return hashlib.shake_256(b"verif-c32-%d" % seed).digest(size) if size else b""
+
+
+def _wdata(seed, n):
+    """Bytes written by a history's write op (aperiodic, different from the file's own stream)."""
+    return hashlib.shake_256(b"verif-c32-write-%d" % seed).digest(n)
 
 
 def _blocks(size, o, l, b):
@@ -171,8 +224,9 @@ def _server_stack(env):
     return "\n".join(out)
 
 
-def _one_query(ctx, jcase, env, guard, fh, content, q, qi):
-    """Returns 'ok' | 'known' | 'dead' (session unusable) | 'late' (backstop hit; caller re-tries)."""
+def _one_query(ctx, jcase, env, guard, fh, content, q, qi, hsuffix="", hwhere=""):
+    """Returns 'ok' | 'known' | 'dead' (session unusable) | 'late' (backstop hit; caller re-tries).
+    ``hsuffix``: root-cause refinement of digest buckets for queries on a handle with a history."""
     from paramiko.ssh_exception import SSHException
 
     size = len(content)
@@ -187,7 +241,7 @@ def _one_query(ctx, jcase, env, guard, fh, content, q, qi):
     except (IOError, OSError, SSHException, EOFError) as e:
         exc = e
     elapsed = time.time() - t0
-    where = "query %d: check(%r, offset=%d, length=%d, block_size=%d) on a %d-byte file" % (qi, algs, o, l, b, size)
+    where = "query %d: check(%r, offset=%d, length=%d, block_size=%d) on a %d-byte file%s" % (qi, algs, o, l, b, size, hwhere)
     past_eof = l > 0 and o + l > size
     # ---- no prompt answer
     log_abort = [x for x in env.server_log if x[1] == "read-loop-abort"]
@@ -211,14 +265,14 @@ def _one_query(ctx, jcase, env, guard, fh, content, q, qi):
     # ---- empty range: any reply will do
     if not blocks:
         if exc is None and got != b"":
-            ctx.violation("digest", "empty-range-nonempty-reply", jcase, "%s: range is empty, reply has %d bytes" % (where, len(got)))
+            ctx.violation("digest", "empty-range-nonempty-reply" + hsuffix, jcase, "%s: range is empty, reply has %d bytes" % (where, len(got)))
         return "ok"
     names = [a for a in algs.split(",") if a in SUPPORTED]
     if not names:
         raise AssertionError("generator produced no supported algorithm")
     if exc is not None:
         text = str(exc)
-        return "known" if ctx.violation("error-reply", text[:40] or type(exc).__name__, jcase, "%s: %r" % (where, exc)) else "ok"
+        return "known" if ctx.violation("error-reply", (text[:40] or type(exc).__name__) + hsuffix, jcase, "%s: %r" % (where, exc)) else "ok"
     exps = {a: b"".join(SUPPORTED[a](content[p:q]).digest() for p, q in blocks) for a in names}
     if got in exps.values():
         if len(names) > 1 and got != exps[names[0]]:
@@ -249,71 +303,204 @@ def _one_query(ctx, jcase, env, guard, fh, content, q, qi):
         got[:20].hex(),
         exp[:20].hex(),
     )
-    return "known" if ctx.violation("digest", bucket, jcase, detail) else "ok"
+    return "known" if ctx.violation("digest", bucket + hsuffix, jcase, detail) else "ok"
+
+
+def _jsonable(x):
+    return [_jsonable(y) for y in x] if isinstance(x, (tuple, list)) else x
+
+
+def _classify_query(classes, size, o, l, b, algs):
+    """Geometry classes of one query; returns whether the geometry alone makes it non-trivial."""
+    nt = False
+    blocks = _blocks(size, o, l, b)
+    longest = max([q - p for p, q in blocks] or [0])
+    if longest > _KB64:
+        classes.add("block>64KiB")
+        nt = True
+    if l > 0 and o + l > size:
+        classes.add("length-past-eof")
+        nt = True
+    if len(blocks) >= 2 and blocks[-1][1] - blocks[-1][0] < b:
+        classes.add("partial-last-block")
+        nt = True
+    if l == 0:
+        classes.add("length-zero")
+    if not blocks:
+        classes.add("empty-range")
+    if len(blocks) >= 2:
+        classes.add("multi-block")
+    if "," in algs:
+        classes.add("alg-list")
+    return nt, blocks
+
+
+class _HandleState:
+    """Harness-side view of one open SFTPFile: position and where its past requests ended."""
+
+    def __init__(self, fh, mode):
+        self.fh = fh
+        self.mode = mode
+        self.pos = 0
+        self.hist = []  # (kind, end offset) of the requests this handle has served, oldest first
 
 
 def execute(ctx, case, _retry=0):
-    size, seed = case["size"], case["seed"]
-    queries = []
-    for algs, o, l, b in case["queries"]:
-        o_ = _resolve(o, size)
-        if l[0] == "rem":
-            l_ = max(0, size - o_) * l[1] // 1000
-        elif l[0] == "rem+":
-            l_ = max(0, size - o_) + l[1]
-        else:
-            l_ = _resolve(l, size)
-        queries.append((algs, o_, l_, _resolve(b, size, 256)))
-    jcase = {"size": size, "seed": seed, "queries": [list(map(lambda x: list(x) if isinstance(x, (tuple, list)) else x, q)) for q in case["queries"]]}
+    from paramiko.ssh_exception import SSHException
 
-    content = _content(seed, size)
+    size, seed = case["size"], case["seed"]
+    if "queries" in case:  # layout of the first generation of this check (committed replays): queries on one read-only handle
+        mode = "r"
+        ops = [["check", 0] + list(q) for q in case["queries"]]
+        jcase = {"size": size, "seed": seed, "queries": _jsonable(case["queries"])}
+    else:
+        mode = case["mode"]
+        ops = _jsonable(case["ops"])
+        jcase = {"size": size, "seed": seed, "mode": mode, "ops": ops}
+
+    model = bytearray(_content(seed, size))
     nontrivial = False
     classes = set()
-    for algs, o, l, b in queries:
-        blocks = _blocks(size, o, l, b)
-        longest = max([q - p for p, q in blocks] or [0])
-        if longest > _KB64:
-            classes.add("block>64KiB")
-            nontrivial = True
-        if l > 0 and o + l > size:
-            classes.add("length-past-eof")
-            nontrivial = True
-        if len(blocks) >= 2 and blocks[-1][1] - blocks[-1][0] < b:
-            classes.add("partial-last-block")
-            nontrivial = True
-        if l == 0:
-            classes.add("length-zero")
-        if not blocks:
-            classes.add("empty-range")
-        if len(blocks) >= 2:
-            classes.add("multi-block")
-        if "," in algs:
-            classes.add("alg-list")
+    classes.add("mode:" + mode)
 
     _counter[0] += 1
     base = os.path.join(ctx.tmpdir(), "c%d" % _counter[0])
     root = os.path.join(base, "root")
     os.makedirs(root)
-    with open(os.path.join(root, "f"), "wb") as f:
-        f.write(content)
+    fpath = os.path.join(root, "f")
+    with open(fpath, "wb") as f:
+        f.write(model)
     guard = ReadGuard(size)
-    env = sftpenv.SftpEnv(root, fault_plan=guard, loop_limit=10**12)
+    # unbuffered server-side files: a handle must see what was written through another handle
+    env = sftpenv.SftpEnv(root, fault_plan=guard, loop_limit=10**12, handle_buffering=0)
     late = None
+    handles = {}
+    modified = set()  # handles through which the file has been modified
+    trace = []
     try:
         env.client_chan.settimeout(BACKSTOP_S)
-        fh = env.client.open("/f", "rb")
-        for qi, q in enumerate(queries):
-            r = _one_query(ctx, jcase, env, guard, fh, content, q, qi)
+        handles[0] = _HandleState(env.client.open("/f", mode + "b", 0), mode)
+        if "w" in mode:
+            del model[:]
+            guard.size = 0
+
+        def handle(h):
+            if h not in handles:
+                m = "r" if mode == "r" else "r+"
+                handles[h] = _HandleState(env.client.open("/f", m + "b", 0), m)
+                classes.add("second-handle")
+            return handles[h]
+
+        def offset_of(spec, hs):
+            if spec[0] == "end":
+                k, d = spec[1], spec[2]
+                base_ = hs.hist[-1 - k][1] if k < len(hs.hist) else hs.pos
+                return max(0, base_ + d)
+            if spec[0] == "pos":
+                return max(0, hs.pos + spec[1])
+            return _resolve(spec, len(model))
+
+        qi = 0
+        for op in ops:
+            kind, h = op[0], op[1]
+            hs = handle(h)
+            cur = len(model)
+            guard.begin(0)
+            try:
+                if kind == "seek":
+                    hs.pos = offset_of(op[2], hs)
+                    hs.fh.seek(hs.pos)
+                    trace.append("h%d.seek(%d)" % (h, hs.pos))
+                    continue
+                if kind == "read":
+                    data = hs.fh.read(op[2])
+                    trace.append("h%d.read(%d)@%d->%d bytes" % (h, op[2], hs.pos, len(data)))
+                    hs.pos += len(data)
+                    hs.hist.append(("read", hs.pos))
+                    classes.add("op:read")
+                    continue
+                if kind == "write":
+                    if "+" not in hs.mode:
+                        ctx.count("dropped:write-on-readonly-handle")
+                        continue
+                    data = _wdata(op[3], op[2])
+                    hs.fh.write(data)
+                    hs.fh.flush()
+                    if hs.pos > len(model):
+                        model.extend(bytes(hs.pos - len(model)))
+                        classes.add("write:beyond-eof")
+                    model[hs.pos : hs.pos + len(data)] = data
+                    trace.append("h%d.write(%d bytes)@%d" % (h, len(data), hs.pos))
+                    hs.pos += len(data)
+                    hs.hist.append(("write", hs.pos))
+                    guard.size = len(model)
+                    modified.add(h)
+                    classes.add("op:write")
+                    continue
+            except (IOError, OSError, SSHException, EOFError) as e:
+                # the history could not be built; whether plain reads/writes work is not this property's business
+                ctx.inconc("history-op-failed:%s:%s" % (kind, type(e).__name__))
+                break
+            # ---- check
+            algs = op[2]
+            o = offset_of(op[3], hs)
+            if op[4][0] == "rem":
+                l = max(0, cur - o) * op[4][1] // 1000
+            elif op[4][0] == "rem+":
+                l = max(0, cur - o) + op[4][1]
+            else:
+                l = _resolve(op[4], cur)
+            b = _resolve(op[5], cur, 256)
+            geo_nt, blocks = _classify_query(classes, cur, o, l, b, algs)
+            nontrivial = nontrivial or geo_nt
+            # history of this handle / of the file at the moment of the query
+            kinds = [k for k, _ in hs.hist]
+            ends = [e for _, e in hs.hist]
+            hsuffix = hwhere = ""
+            classes.add("check:" + ("fresh-handle" if not kinds else "after-" + kinds[-1]))
+            if o in ends:
+                classes.add("check:offset=previous-end")
+                if o in ends[:-1]:
+                    classes.add("check:offset=earlier-end,other-request-between")
+                    first = ends.index(o)
+                    if "write" in kinds[first + 1 :]:
+                        classes.add("check:offset=earlier-end,write-between")
+            if modified:
+                classes.add("check:file-modified")
+                if modified - {h}:
+                    classes.add("check:file-modified-through-other-handle")
+            if hs.mode != "r":
+                classes.add("check:on-%s-handle" % hs.mode)
+            if any(k != "check" for k in kinds) or modified:
+                if blocks:
+                    nontrivial = True
+                hsuffix = ":after(%s)%s%s" % (";".join(kinds[-2:]) or "-", "@previous-end" if o in ends else "", ",file-modified" if modified else "")
+                hwhere = " [mode %s, handle %d; %s]" % (mode, h, ", ".join(trace[-6:]))
+            r = _one_query(ctx, jcase, env, guard, hs.fh, bytes(model), (algs, o, l, b), qi, hsuffix, hwhere)
+            trace.append("h%d.check(%d,%d,%d)" % (h, o, l, b))
+            qi += 1
+            if blocks:
+                hs.hist.append(("check", blocks[-1][1]))
             if r == "late":
-                late = (qi, q, _server_stack(env))
+                late = (qi - 1, (algs, o, l, b), _server_stack(env))
                 break
             if r == "dead":
                 break
+        else:
+            # the model the digests were judged against is what the disk holds (harness self-check)
+            if modified:
+                for hs in handles.values():
+                    hs.fh.flush()
+                with open(fpath, "rb") as f:
+                    disk = f.read()
+                if disk != bytes(model):
+                    ctx.inconc("model-differs-from-served-file")
         if late is None:
-            try:
-                fh.close()
-            except Exception:
-                pass
+            for hs in handles.values():
+                try:
+                    hs.fh.close()
+                except Exception:
+                    pass
     finally:
         guard.kill = True
         env.close()
@@ -345,7 +532,7 @@ def _explore_in_slices(ctx, strategy, body, total, shrink, slice_size=400):
 
 def run(ctx):
     ctx.set_budget(70, 850)
-    _explore_in_slices(ctx, case_st, lambda c: execute(ctx, c), ctx.scale(1000, 30000), shrink=True, slice_size=1000)
+    _explore_in_slices(ctx, case_st, lambda c: execute(ctx, c), ctx.scale(1500, 30000), shrink=True, slice_size=1500)
 
 
 def replay(ctx, case):
